@@ -282,6 +282,101 @@ def _call_defaults(fn: ast.FunctionDef | None) -> str:
     return "DfUnknown"
 
 
+def _name_lookup(fn: ast.FunctionDef | None) -> str:
+    """_handle_name (source_tools.py): in which ORDER the function's own symbols (parameters, assigned names) and the
+    numbers of the defining module are consulted (coq/mxlgen/NameScope.v: nl_mode).  Only the order is read: what the
+    fall-back does when the module has no such number (KeyError today) is not this fact's business, so a repair of that
+    branch does not flip it."""
+    if fn is None:
+        return "NlUnknown"
+    body = _strip_doc(fn).body
+
+    def scans(node: ast.AST) -> bool:
+        return any(isinstance(n, ast.Attribute) and n.attr == "getmembers" for n in ast.walk(node)) or any(
+            isinstance(n, ast.Name) and n.id == "vars" for n in ast.walk(node)
+        )
+
+    def reads_symbols(node: ast.AST) -> bool:
+        return any(isinstance(n, ast.Attribute) and n.attr == "symbols" for n in ast.walk(node))
+
+    if (
+        len(body) == 3
+        and ast.unparse(body[0]) == "value = ctx.symbols.get(node.id)"
+        and isinstance(body[1], ast.If)
+        and ast.unparse(body[1].test) == "value is None"
+        and not body[1].orelse
+        and scans(body[1])
+        and not reads_symbols(body[1])
+        and ast.unparse(body[2]) == "return value"
+    ):
+        return "NlLocalsFirst"
+    # the shape of seeded change C11-8: the module is scanned first, ctx.symbols only when the name is no number there
+    if (
+        len(body) >= 2
+        and isinstance(body[0], ast.Assign)
+        and scans(body[0])
+        and not reads_symbols(body[0])
+        and isinstance(body[-1], ast.Return)
+        and reads_symbols(body[-1])
+        and not scans(body[-1])
+        and all(isinstance(b, ast.If) and any(isinstance(r, ast.Return) for r in b.body) and not reads_symbols(b) for b in body[1:-1])
+    ):
+        return "NlModuleFirst"
+    return "NlUnknown"
+
+
+_SCAN_USERS = ("_handle_call", "_handle_attribute", "_handle_name")
+_SCAN_MAY_CALL = {"_handle_expr", "_find_root", "fn_to_sympy", "_get_inner_object"}
+_SCAN_MAY_READ = {"KNOWN_FNS", "KNOWN_CONSTANTS", "_LOGGER"}
+
+
+def _scan_mode(tree: ast.Module) -> str:
+    """WHEN the translator scans a module for its callables / sub-modules / numbers (coq/mxlgen/Session.v: scan_mode).
+    ScanAtCall: _handle_call scans `inspect.getmembers(ctx.parent_module, predicate=callable)` itself, no function of the
+    file is wrapped in a cache decorator, and the three functions that scan neither call another module-level function of
+    the file (besides the translator's own recursion) nor read a module-level variable (besides the two constant tables and
+    the logger) -- so nothing found in one call can reach a later one.  ScanMemo: the shape of seeded change C11-7."""
+    fns = {n.name: n for n in tree.body if isinstance(n, ast.FunctionDef)}
+    if any(u not in fns for u in _SCAN_USERS):
+        return "ScanUnknown"
+    top_fns = set(fns)
+    top_vars: set[str] = set()
+    for n in tree.body:
+        if isinstance(n, ast.Assign):
+            top_vars |= {t.id for t in n.targets if isinstance(t, ast.Name)}
+        elif isinstance(n, ast.AnnAssign) and isinstance(n.target, ast.Name):
+            top_vars.add(n.target.id)
+    cached = {
+        name
+        for name, f in fns.items()
+        if any("cache" in ast.unparse(d) for d in f.decorator_list)
+    }
+    used_fns: set[str] = set()
+    used_vars: set[str] = set()
+    for u in _SCAN_USERS:
+        for n in ast.walk(fns[u]):
+            if isinstance(n, ast.Name) and isinstance(n.ctx, ast.Load):
+                if n.id in top_fns:
+                    used_fns.add(n.id)
+                if n.id in top_vars:
+                    used_vars.add(n.id)
+            if isinstance(n, (ast.Global, ast.Nonlocal)):
+                return "ScanUnknown"
+    inline = any(
+        ast.unparse(n) == "inspect.getmembers(ctx.parent_module, predicate=callable)" for n in ast.walk(fns["_handle_call"])
+    )
+    any_cache = cached or any(
+        isinstance(n, (ast.Import, ast.ImportFrom)) and "functools" in ast.unparse(n) for n in tree.body
+    ) or any(isinstance(n, ast.Attribute) and "cache" in n.attr for n in ast.walk(tree))
+    if inline and not any_cache and used_fns <= _SCAN_MAY_CALL and used_vars <= _SCAN_MAY_READ:
+        return "ScanAtCall"
+    if cached and (used_fns & cached) and any(
+        isinstance(n, ast.Attribute) and n.attr == "getmembers" for c in cached for n in ast.walk(fns[c])
+    ) and not inline:
+        return "ScanMemo"
+    return "ScanUnknown"
+
+
 FRESH_HELPERS = ("_positional_fn", "_register_fn", "_parameter_names")
 EMIT_HELPERS = ("_number_literal", "_unit_literal")  # fixes/C11-emitted-numbers-imports-units.diff
 
@@ -304,6 +399,8 @@ def extract(repo=None) -> tuple[dict[str, str], dict[str, str]]:
         "emit": "EmUnknown",
         "import_scan": "None",
         "call_defaults": "DfUnknown",
+        "name_lookup": "NlUnknown",
+        "scan_mode": "ScanUnknown",
     }
     texts: dict[str, str] = {}
     try:
@@ -356,7 +453,10 @@ def extract(repo=None) -> tuple[dict[str, str], dict[str, str]]:
     facts["rename"] = _rename(_find(t1, "_fn_to_symbolic_repr"))
     facts["import_scan"] = _import_scan(_find(t1, "generate_mxlpy_code_from_symbolic_repr"))
     try:
-        facts["call_defaults"] = _call_defaults(_find(ast.parse((repo / SOURCE_TOOLS).read_text()), "fn_to_sympy"))
+        t3 = ast.parse((repo / SOURCE_TOOLS).read_text())
+        facts["call_defaults"] = _call_defaults(_find(t3, "fn_to_sympy"))
+        facts["name_lookup"] = _name_lookup(_find(t3, "_handle_name"))
+        facts["scan_mode"] = _scan_mode(t3)
     except (OSError, SyntaxError):
         pass
     exp = exp_all.get(facts["register"], {})
